@@ -122,6 +122,9 @@ pub struct Prov {
     pub gate_all: bool,
     /// record SolverCache::are_dependencies_available_for from inside sort_candidates
     pub probe_cache_in_sort: bool,
+    /// sort_candidates asks the SolverCache for the dependencies of every candidate it sorts (what
+    /// real providers do to rank candidates), through the public cache API
+    pub sort_fetches_deps: bool,
     pub probes: RefCell<Vec<(u32, bool)>>,
 }
 
@@ -140,6 +143,7 @@ impl Prov {
             gate: Rc::new(Default::default()),
             gate_all: false,
             probe_cache_in_sort: false,
+            sort_fetches_deps: false,
             probes: Default::default(),
         }
     }
@@ -222,6 +226,11 @@ impl DependencyProvider for Prov {
             for x in s.iter() {
                 let a = c.are_dependencies_available_for(*x);
                 self.probes.borrow_mut().push((x.0, a));
+            }
+        }
+        if self.sort_fetches_deps {
+            for x in s.iter() {
+                let _ = c.get_or_cache_dependencies(*x).await;
             }
         }
         if self.gate_all {
